@@ -354,7 +354,8 @@ func c04CleanupGen(t *rapid.T) any {
 		if s.Launch == "reattach" {
 			s.Launch = "cmd"
 		}
-		if s.Behaviour == "frozen" {
+		if s.Behaviour == "frozen" && !pct(t, "keepfrozen", 30) {
+			// a frozen net/rpc plugin costs ~40 s (yamux keep-alive): kept for a share of the cases only
 			s.Behaviour = "never"
 		}
 		s.Pattern = "single"
@@ -410,6 +411,15 @@ func c04CleanupRun(ci any) (out Outcome) {
 			waitPidDead(x.pid, 3*time.Second)
 		case "busy":
 			go h.DoT(Cmd{Op: "sleep", N: 1500}, 10*time.Second)
+		case "frozen":
+			syscall.Kill(x.pid, syscall.SIGSTOP)
+		}
+	}
+	bound := 20 * time.Second
+	for _, x := range all {
+		if x.s.Behaviour == "frozen" {
+			bound = 75 * time.Second // net/rpc: yamux keep-alive 30 s + 10 s write timeout, as for a single Kill
+			out.label("frozen-managed-client")
 		}
 	}
 	defer func() {
@@ -419,8 +429,8 @@ func c04CleanupRun(ci any) (out Outcome) {
 			}
 		}
 	}()
-	if el, ok := within(20*time.Second, plugin.CleanupClients); !ok {
-		out.Slow = fmt.Sprintf("CleanupClients over %d managed clients did not return within 20 s (%v)", len(all), el)
+	if el, ok := within(bound, plugin.CleanupClients); !ok {
+		out.Slow = fmt.Sprintf("CleanupClients over %d managed clients did not return within %v (%v)", len(all), bound, el)
 		return
 	}
 	if atomic.LoadUint32(&plugin.Killed) != 1 {
@@ -450,6 +460,6 @@ func c04CleanupRun(ci any) (out Outcome) {
 var propC04Cleanup = register(&Prop{
 	ID: "C04", Name: "C04Cleanup", Gen: c04CleanupGen, New: func() any { return &c04CleanupCase{} }, Run: c04CleanupRun,
 	IsoFresh: true, IsoTimeout: 120 * time.Second,
-	Rule: "CleanupClients: a fresh host process per case (the managed list is global and CleanupClients is documented as call-once) holds 1-6 managed clients in mixed states (healthy, needs cleanup time, needs 4 s, never exits, crashed, failed handshake, busy; all protocols); one CleanupClients call. " +
-		"Oracle: it returns within 20 s, plugin.Killed is set, every launched process is gone and reaped, every client reports Exited(), cooperative plugins wrote their cleanup marker. Non-trivial: >= 2 managed clients.",
+	Rule: "CleanupClients: a fresh host process per case (the managed list is global and CleanupClients is documented as call-once) holds 1-6 managed clients in mixed states (healthy, needs cleanup time, needs 4 s, never exits, frozen with SIGSTOP, crashed, failed handshake, busy; all protocols); one CleanupClients call. " +
+		"Oracle: it returns within 20 s (75 s with a frozen client), plugin.Killed is set, every launched process is gone and reaped, every client reports Exited(), cooperative plugins wrote their cleanup marker. Non-trivial: >= 2 managed clients.",
 })
